@@ -16,7 +16,7 @@
 (*                                                  with q = peer asked, tracker kept alive, or "none" = bootstrap) *)
 (*   EdgeNbh(N, Wk) EdgeStart(r) EdgeGrow(ch)       the three branches of EdgeWalk.take_step                        *)
 (*   ChurnStep(W)            RandomChurn.take_step  W = the sampled window                                          *)
-(*   RecvIntroReq(p) RecvIntroResp(p, a) RecvSimResp(p) RecvPong(p) RecvOther(p)   Community.on_packet + handler    *)
+(*   RecvIntroReq(p) RecvIntroResp(p, a) RecvSimResp(p) RecvPong(p, t) RecvOther(p)  Community.on_packet + handler  *)
 (*   Tick(d)                 the clock; PingRequestCache time-outs fall due                                         *)
 (* The environment is adversarial in time: any peer may send any of these datagrams at any moment (the code keeps   *)
 (* no table of outstanding introduction requests, so unsolicited responses are processed as well).                  *)
@@ -46,13 +46,19 @@
 (*       depth is reached, we teleport home") every edge starts at a neighbourhood root, consecutive members were    *)
 (*       introduced by their predecessor (and were verified when appended), edges under construction are shorter     *)
 (*       than EdgeLen, completed ones have 2..EdgeLen members; at most one edge per root, at most NbSize roots.      *)
+(*  S8 PongCounted          (PingRequestCache: "cache for ping measurements to a peer", Peer.pings) a pong that answers a *)
+(*       ping of ours whose cache is still alive is recorded as one round-trip measurement and consumes the cache.   *)
 (* NOT required (intent unclear, behaviour allowed and reported): a peer whose last_response is still 0 (it was      *)
 (* verified by its first datagram and never heard of again) is never dropped; a drop may rely on a ping that was     *)
 (* sent before the peer's last answer; EdgeWalk keeps dropped peers in its neighbourhood; max_peers admits one peer  *)
 (* more than its value; RandomChurn._pinged keeps entries of peers removed by somebody else.                          *)
 (*                                                                                                                 *)
-(* Dev is a set of deviation names (negative controls): "dropEarly", "noPingGuard", "pingFlood", "noWindow",          *)
-(* "walkVerified", "keepUnreachable"/"forgetAnswered", "edgeAny".                                                    *)
+(* Dev is a set of deviation names (negative controls, Discovery_ctl_*.cfg): "dropEarly", "noPingGuard", "pingFlood",  *)
+(* "noWindow", "walkVerified", "forgetAnswered", "edgeAny", "pongUnmatched" (= the pinned DiscoveryCommunity.send_ping  *)
+(* once the overlay's global time has passed 65535: the cache is keyed by the unreduced global time, the pong carries  *)
+(* it modulo 65536 - genuine defect G01-1, proposed_fixes/G01-1.diff).                                                 *)
+(* Configurations: Discovery_{walk,walk_slow,walk3,churn,edge,edge_nb2,all}.cfg and *_q.cfg (model checking),           *)
+(* Discovery_r_*.cfg (graphs whose every transition is replayed on the real code), DiscoveryTrace.tla (recorded runs). *)
 EXTENDS Integers, Sequences, FiniteSets, TLC
 
 CONSTANTS Peers, Ghosts, Trackers, Own,
@@ -168,9 +174,10 @@ RecvIntroResp(p, a) ==
 RecvPong(p, t) ==
   /\ UseChurn /\ p \in verified /\ t \in pingT[p]
   /\ lastResp' = [lastResp EXCEPT ![p] = now]
-  /\ npings' = [npings EXCEPT ![p] = Min(MaxPings, @ + 1)]
-  /\ pingT' = [pingT EXCEPT ![p] = @ \ {t}]
-  /\ out' = Quiet("env")
+  /\ IF "pongUnmatched" \in Dev THEN UNCHANGED <<npings, pingT>>
+     ELSE /\ npings' = [npings EXCEPT ![p] = Min(MaxPings, @ + 1)]
+          /\ pingT' = [pingT EXCEPT ![p] = @ \ {t}]
+  /\ out' = Quiet("pong")
   /\ UNCHANGED <<now, netVars, inited, lastBoot, walkVars, churnVars, edgeVars>>
 
 (* any other datagram from the address of a verified peer (ping, puncture, similarity request, late pong ...)    *)
@@ -202,8 +209,7 @@ WalkStep(a, q) ==
   /\ UseWalk /\ Gate
   /\ LET expired  == {x \in Addr : walkT[x] # Never /\ walkT[x] + WalkTimeout < now}
          wt1      == [x \in Addr |-> IF x \in expired THEN Never ELSE walkT[x]]
-         unans    == IF "keepUnreachable" \in Dev THEN {}
-                     ELSE IF "forgetAnswered" \in Dev THEN expired
+         unans    == IF "forgetAnswered" \in Dev THEN expired
                      ELSE {x \in expired : x \notin verified}
          known1   == known \ unans
          ver1     == verified \ unans                   \* = verified unless "forgetAnswered"
@@ -355,6 +361,11 @@ PingDiscipline ==
           /\ p \in verified
           /\ npings[p] < MaxPings \/ (lastResp[p] # Never /\ now > lastResp[p] + InactiveTime)
           /\ pinged[p] = Never \/ now > pinged[p] + PingInterval]_vars
+
+(* S8 *)
+PongCounted ==
+  [][out'.kind = "pong" => \E p \in Peers : /\ npings'[p] = Min(MaxPings, npings[p] + 1)
+                                              /\ Cardinality(pingT'[p]) = Cardinality(pingT[p]) - 1]_vars
 
 (* S3 *)
 WalkWindow == Window > 0 => Cardinality({a \in Addr : walkT[a] # Never}) <= Window
